@@ -50,7 +50,13 @@ def _cases(draw, tier):
         )
     )
     observers = draw(gen.weighted((2, st.just([])), (1, obs.feature_configs(min_size=1, max_size=3))))
-    return {"inst": inst, "filters": filters, "history": draw(gen.histories()), "observers": observers}
+    return {
+        "inst": inst,
+        "filters": filters,
+        "history": draw(gen.histories()),
+        "observers": observers,
+        "pre": draw(st.one_of(st.just(0), st.just(0), st.integers(1, 12))),
+    }
 
 
 def strategy(tier):
@@ -172,6 +178,24 @@ def check_case(case, ctx):
             )
         return now, done
 
+    pre = min(case.get("pre", 0), n)
+    if pre:
+        # an earlier, abandoned episode on the same dispatcher (and twin)
+        from ..lib import ref as _ref
+
+        for k in range(pre):
+            if not d.available_operations():
+                break
+            j, p, mm = drv.choose(k, k, "available")
+            drv.dispatch(j, p, mm)
+            if twin is not None:
+                twin.dispatch(j, p, mm)
+        d.reset()
+        drv.model = m = _ref(inst)
+        if twin is not None:
+            twin.dispatcher.reset()
+            twin.model = _ref(inst)
+        ctx.label("after_reset")
     now, done = observe("initial")
     values = {now}
     unchanged = False
